@@ -18,8 +18,9 @@ LEVEL = ('decides: the DRAT literal sign table of DimacsProof::learned_clause ag
          'BUNDLE (rule ids …K<n>): the kernel rules every verdict depends on — predicate algebra, '
          'nogood watchers, minimisers, conflict-analysis tables, nogood deletion, decision read-back, '
          'no-learning resolver, constraint builders, reified reasons — wherever they are not already '
-         'registered here under another id. Comment state survives chunk boundaries (G12). Does not '
-         'decide RUP validity or verdict correctness')
+         'registered here under another id. Comment state survives chunk boundaries (G12). Only the '
+         'code→literal translation drops the sign of a DIMACS code (G13 = C15-W11). Does not decide '
+         'RUP validity or verdict correctness')
 TECHNIQUE = "static analysis: symbolic table recovery, who-may-mutate and must-pass rules over rustc MIR"
 
 SELECTING = {"filter", "filter_map", "skip", "take", "step_by", "skip_while", "take_while", "dedup",
